@@ -162,7 +162,16 @@ class Gen:
                         try:
                             check_wellformed(g2)
                             check_types(g2)
-                            return g2
+                            g = g2
+                        except Invalid:
+                            pass
+                if self.p["p_ccheck"] >= 0.5:
+                    g2 = self.wrapped_class(g)
+                    if g2 is not None:
+                        try:
+                            check_wellformed(g2)
+                            check_types(g2)
+                            g = g2
                         except Invalid:
                             pass
                 return g
@@ -199,6 +208,49 @@ class Gen:
         alt.parts.insert(self.r.randint(0, len(alt.parts)), piece)
         g.rules.append(one)
         self.kinds["One"] = "struct"
+        return g
+
+    def wrapped_class(self, g):
+        """a character class that carries a check, reached only through a class without one
+        ( @char @check(f) Cinner = 'a'..'m' | '0'..'9';   @char Cwrap = Cinner | '_'; ) and used as a repeated field of some
+        rule: the check has to run for every character tried through the wrapper.  Decided by a side stream derived from the
+        grammar, so that the generator's own random stream (and every other grammar) stays as it was."""
+        import copy
+        import hashlib
+        side = random.Random("wrapped-class/" + hashlib.sha256(repr(g).encode()).hexdigest())
+        if side.random() >= 0.6:
+            return None
+        g = copy.deepcopy(g)
+        hosts = [r for r in g.rules if r.kind == "rule" and not r.has("string") and self.kinds.get(r.name) == "struct"]
+        if not hosts or g.rule("Cwrap") is not None or g.rule("Cinner") is not None:
+            return None
+        host = side.choice(hosts)
+        inner_parts = side.choice([[("rng", "a", "m"), ("rng", "0", "9")], [("rng", "A", "Z")], [("lit", "x"), ("lit", "y"), ("rng", "0", "7"), ("lit", "\u00e9")]])
+        fn = ["vfrt", "vfu", side.choice(CCHECK_FNS)]
+        inner = CharRule("Cinner", inner_parts, [fn] if side.random() < 0.5 else [], [])
+        if not inner.checks_before:
+            inner.checks_after.append(fn)
+        wparts = [("ref", "Cinner")] + ([("lit", "_")] if side.random() < 0.6 else [])
+        if side.random() < 0.3:
+            wparts.reverse()
+        wrap = CharRule("Cwrap", wparts, [], [])
+        mid = None
+        if side.random() < 0.3:
+            # a chain of two unchecked wrappers
+            mid = CharRule("Cmid", [("ref", "Cinner")], [], [])
+            wrap.parts = [("ref", "Cmid") if p_ == ("ref", "Cinner") else p_ for p_ in wrap.parts]
+        f = side.choice(self.fieldpool)
+        ref = Ref("Cwrap", f)
+        piece = side.choice([Clo(Cho([Seq([ref])])), Clo(Cho([Seq([ref])]), True), Opt(Cho([Seq([ref])])), ref])
+        alt = side.choice(host.body.alts)
+        alt.parts.insert(side.randint(0, len(alt.parts)), piece)
+        g.rules.append(wrap)
+        if mid is not None:
+            g.rules.append(mid)
+            self.kinds["Cmid"] = "char"
+        g.rules.append(inner)
+        self.kinds["Cwrap"] = "char"
+        self.kinds["Cinner"] = "char"
         return g
 
     def keyword_rule(self, g):
@@ -492,6 +544,10 @@ class Gen:
         if later and self.coin(0.3):
             # a class that is (almost) only another class: NameChar = Letter | '_'   (the inner class may carry checks)
             parts = [("ref", self.r.choice(later))]
+            if self.p["p_ccheck"] >= 0.5:
+                # where user functions are the subject, the inner class of such a wrapper always carries a check (decided
+                # without touching the generator's random stream)
+                self.__dict__.setdefault("force_ccheck", set()).add(parts[0][1])
             if self.coin(0.6):
                 parts.append(("lit", self.r.choice(ASCII_LITS)[0]))
             if self.coin(0.3):
@@ -514,6 +570,9 @@ class Gen:
         if self.coin(self.p["p_ccheck"]):
             for _ in range(self.r.randint(1, 2)):
                 (cb if self.coin(0.5) else ca).append(["vfrt", "vfu", self.r.choice(CCHECK_FNS)])
+        if not cb and not ca and nm in self.__dict__.get("force_ccheck", ()):
+            r2 = random.Random("forced-ccheck/%s/%d" % (nm, i))
+            (cb if r2.random() < 0.5 else ca).append(["vfrt", "vfu", r2.choice(CCHECK_FNS)])
         return CharRule(nm, parts, cb, ca)
 
     def checks(self):
